@@ -1,4 +1,4 @@
-package runtime
+package PKGNAME
 
 // Reference ECMAScript lexing of string literals and no-substitution templates
 // (ECMA-262 12.9.4, 12.9.6) and a reference JSON reader, written independently of the code
